@@ -232,7 +232,7 @@ DRIVERS = {
         None,
     ),
     "particle_swarm": (d_pso, [dict(max_iter=1, init=[[1.0], [3.0]], stop=0), dict(max_iter=1, init=[[0.0], [4.0]], stop=0), dict(max_iter=2, init=[[1.0], [3.0]], stop=1, values=V3, max_dev=3), dict(max_iter=2, init=None, stop=0, values=V3, max_dev=3)], None),
-    "nelder_mead": (d_nm, [dict(x0=[0.0], max_iter=mi, adaptive=False, stop=s) for mi in (1, 2, 3) for s in (0, 1, 2)] + [dict(x0=[0.0], max_iter=mi, adaptive=False, stop=0, values=V4) for mi in (1, 2)] + [dict(x0=[0.0, 0.0], max_iter=1, adaptive=False, stop=0, values=V4)] + [dict(x0=[0.0, 0.0], max_iter=2, adaptive=ad, stop=s) for ad in (False, True) for s in (0, 1)], None),
+    "nelder_mead": (d_nm, [dict(x0=[0.0], max_iter=mi, adaptive=False, stop=s) for mi in (1, 2, 3) for s in (0, 1, 2)] + [dict(x0=[0.0], max_iter=mi, adaptive=False, stop=0, values=V4) for mi in (1, 2)] + [dict(x0=[0.0, 0.0], max_iter=1, adaptive=False, stop=0, values=V4)] + [dict(x0=[0.0, 0.0], max_iter=2, adaptive=ad, stop=s) for ad in (False, True) for s in (0, 1)] + [dict(x0=[0.0, 0.0], max_iter=4, adaptive=False, stop=0, max_dev=5)], None),  # last: room for two shrink steps
     "bayesian_opt": (d_bayes, [dict(acq=a, max_iter=3, stop=0) for a in ("ei", "ucb")] + [dict(acq="ei", max_iter=4, stop=s, max_dev=2) for s in (0, 3)], None),
     "bfgs": (d_bfgs, [dict(which=w, max_iter=2, stop=s, max_dev=2) for w in ("bfgs", "lbfgs") for s in (0, 1)], "point_only"),
 }
